@@ -18,6 +18,7 @@ import (
 	"time"
 
 	"bbcheck/internal/an"
+	"bbcheck/internal/norm"
 	"bbcheck/internal/props"
 )
 
@@ -71,6 +72,23 @@ func main() {
 		fmt.Println(string(b))
 	case "dump":
 		dump(*repo, *verbose)
+	case "decls":
+		printDecls(*repo)
+	case "norm":
+		// shows what the un-extraction pre-pass does on the current tree
+		ov, notes, err := norm.Normalize(*repo, norm.Known, an.LoadEnv(""))
+		for _, n := range notes {
+			fmt.Println("NOTE:", n)
+		}
+		if err != nil {
+			fmt.Println("ERROR:", err)
+		}
+		for f, b := range ov {
+			fmt.Println("==== overlay", f)
+			if *verbose {
+				fmt.Println(string(b))
+			}
+		}
 	case "funcs":
 		ctx, err := loadAll(*repo, "")
 		if err != nil {
@@ -202,8 +220,18 @@ func main() {
 	}
 }
 
+// normNotes records what the un-extraction pre-pass did on the last load (reported in the evidence).
+var normNotes []string
+
 func loadAll(repo, arch string) (*props.Ctx, error) {
-	p, err := an.Load(repo, nil, arch)
+	// pre-pass: calls of helpers that did not exist when the tables were confirmed are inlined back (source level)
+	overlay, notes, nerr := norm.Normalize(repo, norm.Known, an.LoadEnv(arch))
+	if nerr != nil {
+		return nil, nerr
+	}
+	normNotes = notes
+	an.KnownFuncs = props.KnownFuncs
+	p, err := an.Load(repo, overlay, arch)
 	if err != nil {
 		return nil, err
 	}
@@ -417,6 +445,7 @@ func check(id, tier, repo, verif, onlyKey string) int {
 			"checker_cmd":    "/verif/check.sh " + id + " " + tier,
 			"trusted_base":   []string{"go/types", "golang.org/x/tools/go/ssa v0.29.0", "std-function model table", "reasoned exception tables in tool/internal/props"},
 			"analysed":       stats,
+			"normalisation":  normNotes,
 			"floor_failures": floorFails,
 			"harness":        harness,
 			"exhaustive":     false,
